@@ -2,7 +2,8 @@ from mindsdb_sql.parser.ast.base import ASTNode
 from mindsdb_sql.parser.utils import indent
 from mindsdb_sql.parser.ast.create import TableColumn
 from mindsdb_sql.parser.ast.select.identifier import Identifier
-from mindsdb_sql.parser.ast.select.constant import Constant
+import datetime as dt
+from mindsdb_sql.parser.ast.select.constant import Constant, NullConstant
 
 class Insert(ASTNode):
 
@@ -43,6 +44,11 @@ class Insert(ASTNode):
     def to_value(self, val):
         if isinstance(val, ASTNode) :
             return val.to_string()
+        # plain python values stand for constants: print them as Constant does (repr() writes python escapes such as \\n, \\xa0 and None)
+        if val is None:
+            return NullConstant().to_string()
+        if isinstance(val, (str, bool, int, float, dt.date, dt.datetime, dt.timedelta)):
+            return Constant(val).to_string()
         return repr(val)
 
     def to_tree(self, *args, level=0, **kwargs):
